@@ -517,7 +517,7 @@ pub fn worker(w: &WorkerArgs) -> i32 {
             w.trace_case(|| json!({"kind": "hostile", "source": print(e, Mode::Minimal), "context": ctx_to_json(ctx)}));
             check_hostile_expr(e, ctx, *salt, l)
         }),
-        "jumps_anywhere" => run_family(&rep, &fam, quick(48_000), || (stmtgen::body(3, false, false, stmtgen::SOpts { includes: &[] }), prop::collection::vec(hostile_ctx(stmtgen::NAMES), 2), any::<u64>()), |(main, ctxs, salt), l| {
+        "jumps_anywhere" => run_family(&rep, &fam, w.tier.scale(48_000, 5) / w.nshards.max(1), || (stmtgen::body(3, false, false, stmtgen::SOpts { includes: &[] }), prop::collection::vec(hostile_ctx(stmtgen::NAMES), 2), any::<u64>()), |(main, ctxs, salt), l| {
             // `break` / `continue` planted at arbitrary positions (inside captures inside loops, inside component-call bodies,
             // outside any loop, behind conditions): the parser may refuse the template, but whatever it accepts must render
             // without panic and leave the loop, capture and value stacks empty
@@ -553,7 +553,7 @@ pub fn worker(w: &WorkerArgs) -> i32 {
             }
             check_hostile_set(&tpls, &["main.html".to_string()], &[], &[], ctxs, *salt, l)
         }),
-        "hostile_chains" => run_family(&rep, &fam, quick(24_000), || (super::c04::chain_strategy(5), prop::collection::vec(hostile_ctx(stmtgen::NAMES), 2), any::<u64>()), |(spec, ctxs, salt), l| {
+        "hostile_chains" => run_family(&rep, &fam, w.tier.scale(24_000, 4) / w.nshards.max(1), || (super::c04::chain_strategy(5), prop::collection::vec(hostile_ctx(stmtgen::NAMES), 2), any::<u64>()), |(spec, ctxs, salt), l| {
             // generated inheritance chains (block trees, overrides, nested fresh blocks, super() in any position, blocks in captures
             // and component-call bodies): every template is an entry point, every block is rendered alone
             let (tpls, order, names) = super::c04::chain_sources(spec);
